@@ -1,0 +1,33 @@
+//go:build verif
+
+package threshold
+
+// Read-only wrappers around unexported pure functions, for the verification harness in /verif.
+
+func VerifNewRBCEncoding(digest string, sender uint16, msgRound uint8) []byte {
+	return newRBCEncoding(digest, sender, msgRound)
+}
+
+func VerifRBCAck(data []byte) (digest []byte, sender uint16, msgRound uint8, err error) {
+	return rbcEncoding(data).Ack()
+}
+
+func VerifMembershipSyncTopicName(members []uint16) []byte {
+	return membershipSyncTopicName(members)
+}
+
+// VerifTableKeys returns the topics currently registered in the three handler tables.
+func (s *Scheme) VerifTableKeys() (syncs, rbcs, classifiers []string, dkgRunning bool) {
+	s.lock.RLock()
+	defer s.lock.RUnlock()
+	for k := range s.syncsInProgress {
+		syncs = append(syncs, k)
+	}
+	for k := range s.rbcInProgress {
+		rbcs = append(rbcs, k)
+	}
+	for k := range s.messageClassifiers {
+		classifiers = append(classifiers, k)
+	}
+	return syncs, rbcs, classifiers, s.dkgRunning
+}
